@@ -269,6 +269,15 @@ static int variant_signature(ObjectHeaderBase & o) {
     return 0;
 }
 static int g_last_variant;
+static std::string g_last_shape;   /* element counts of all variable-length members */
+
+static std::string shape_of(ObjectHeaderBase & o) {
+    rv::ListV l;
+    refl::dispatch(o, l);
+    std::string sgn;
+    for (auto & v : l.vars) sgn += std::to_string(v.count) + ",";
+    return sgn;
+}
 
 static bool decode_encode(const std::vector<uint8_t> & img, std::vector<uint8_t> & out, MemFile * layout, std::string & why,
                           std::unique_ptr<ObjectHeaderBase> * keep = nullptr) {
@@ -281,6 +290,7 @@ static bool decode_encode(const std::vector<uint8_t> & img, std::vector<uint8_t>
     if (!in.good() || in.bad_seek) { why = "decoder runs past the image"; return false; }
     if (in.g != img.size()) { why = "decoder consumed " + std::to_string(in.g) + " of " + std::to_string(img.size()); return false; }
     g_last_variant = variant_signature(*o);
+    g_last_shape = shape_of(*o);
     MemFile mf;
     mf.record = true;
     try { o->write(mf); } catch (...) { why = "encoder throws"; return false; }
@@ -306,6 +316,7 @@ static void check_c02_image(const std::vector<uint8_t> & img, const std::string 
     }
     g_distinct.insert(name);
     const int variant0 = g_last_variant;
+    const std::string shape0 = g_last_shape;
     /* byte ranges of fields the encoder recomputes by design (pre-processing table + the size fields of the base header) */
     std::vector<char> recomputed(img.size(), 0);
     {
@@ -348,6 +359,7 @@ static void check_c02_image(const std::vector<uint8_t> & img, const std::string 
         if (!decode_encode(d, out, nullptr, w)) return;            /* filter: must still decode completely */
         if (out.size() != d.size()) return;                       /* filter: same shape = same encoded length */
         if (g_last_variant != variant0) return;                   /* filter: same variant selector */
+        if (g_last_shape != shape0) return;                       /* filter: same lengths of all variable members */
         for (size_t i = 0; i < d.size(); i++) {
             if (out[i] == d[i]) continue;
             if (recomputed[i] && out[i] == img[i]) continue;      /* recomputed by design: equals the recomputed value */
